@@ -171,3 +171,63 @@ def bin_width(dirs):
         return 1.0
     d = abs(float(dirs[1]) - float(dirs[0]))
     return min(d, 360.0 - d)
+
+
+def primed(obj, prime, variant=0):
+    """An object equal to `obj` (same class, values, coordinates, attributes) that has a HISTORY: the same Python object first held
+    other contents, its `.spec` accessor served `prime(obj)` then, and it was afterwards edited IN PLACE into the contents of
+    `obj` through the routes xarray offers for that:
+
+      variant 0 (Dataset / DataArray): only the frequency and direction coordinates differed — restored with
+                `x.coords["freq"] = …` / `x.coords.update({"dir": …})` (the data variable object is never replaced);
+      variant 1 (Dataset): only the energy differed — restored with `ds["efth"] = …` (the variable object is replaced);
+      variant 2 (Dataset): both.
+
+    xarray caches an accessor on the object it was first requested from, so anything the accessor memoised while the object held
+    the decoy contents (a cached SpecArray, bin widths, a 1-D spectrum, station coordinates) is served to the next call unless the
+    library re-reads the object.  A library that keeps no such state returns exactly what it returns on `obj`.  When the object
+    cannot be given a history faithfully (non-numeric axes, dask-backed data, a failed restore) `obj` itself is returned."""
+    import numpy as np
+    import xarray as xr
+
+    try:
+        is_ds = isinstance(obj, xr.Dataset)
+        da = obj["efth"] if is_ds else obj
+        if not isinstance(da, xr.DataArray) or not isinstance(da.variable._data, np.ndarray):
+            return obj
+        if "freq" not in da.dims or not np.issubdtype(obj["freq"].dtype, np.number):
+            return obj
+        x = obj.copy(deep=True)
+        if variant in (0, 2) or not is_ds:
+            f = np.asarray(obj["freq"].values)
+            x.coords["freq"] = ("freq", (f * 1.5 + 0.01).astype(f.dtype) if np.issubdtype(f.dtype, np.floating) else f + 1, dict(obj["freq"].attrs))
+            if "dir" in da.dims and np.issubdtype(obj["dir"].dtype, np.number) and obj["dir"].size > 1:
+                d = np.asarray(obj["dir"].values)
+                x.coords["dir"] = ("dir", ((d.astype(float) * 0.5) % 360).astype(d.dtype), dict(obj["dir"].attrs))
+        if is_ds and variant in (1, 2):
+            e = x["efth"]
+            x["efth"] = (e.dims, np.flip(np.asarray(e.values), axis=e.get_axis_num("freq")) * 0.25 + 0.5, dict(e.attrs))
+        try:
+            prime(x)
+        except Exception:
+            pass
+        # restore in place, on the same object
+        if is_ds and variant in (1, 2):
+            x["efth"] = obj["efth"].variable.copy(deep=True)
+        if variant in (0, 2) or not is_ds:
+            x.coords["freq"] = obj["freq"].variable.copy(deep=True)
+            if "dir" in da.dims:
+                x.coords.update({"dir": obj["dir"].variable.copy(deep=True)})
+        x.attrs = dict(obj.attrs)
+        xr.testing.assert_identical(x, obj)
+        if is_ds:
+            for v in obj.variables:
+                if obj[v].dtype != x[v].dtype or obj[v].dims != x[v].dims:
+                    return obj
+            if list(x.data_vars) != list(obj.data_vars):
+                return obj
+        elif x.dims != obj.dims or x.dtype != obj.dtype:
+            return obj
+        return x
+    except Exception:
+        return obj
